@@ -78,6 +78,28 @@ class Ctx:
         self.coverage = {}
         self.level = "model_checking"
 
+    def child(self):
+        """a scratch context for work done in another thread; merge() it afterwards"""
+        return Ctx(self.prop, self.tier, self.seed)
+
+    def merge(self, other):
+        for k in ("states", "transitions", "traces_total", "traces_accepted", "traces_nc", "events_total"):
+            setattr(self, k, getattr(self, k) + getattr(other, k))
+        self.exhaustive = self.exhaustive and other.exhaustive
+        self.model_runs += other.model_runs
+        self.violations += other.violations
+        self.drift += other.drift
+        self.samples = self.samples or other.samples
+        self.distinct |= other.distinct
+        for a, (d, t) in other.coverage.items():
+            d0, t0 = self.coverage.get(a, (0, 0))
+            self.coverage[a] = (d0 + d, t0 + t)
+        for k, v in other.extra.items():
+            if isinstance(v, (int, float)) and isinstance(self.extra.get(k), (int, float)):
+                self.extra[k] += v
+            else:
+                self.extra.setdefault(k, v)
+
     # ---- model side
     def add_model_run(self, name, res, exhaustive=True, note=None):
         self.states += res.distinct
